@@ -33,11 +33,9 @@ from report import Reporter
 
 TIERS = {
     "quick": dict(groups2=2, groups3=0, variants=("cold", "warm"), cap=12, per_dev=2, max_cand=40,
-                  sim_per_inst=4, bursts="{1, 2, 5, 15, 60, 240}", sweep_points=120, sweep_fn=16,
-                  sweep_variants=("cold",), free_rounds=6, bfs_workers=8, judged_sample=600),
+                  sim_per_inst=4, bursts="{1, 2, 5, 15, 60, 240}", sweep=dict(cold=(120, 16)), free_rounds=6, bfs_workers=8, judged_sample=600),
     "thorough": dict(groups2=9, groups3=2, variants=("cold", "warm"), cap=60, per_dev=3, max_cand=200,
-                     sim_per_inst=16, bursts="{1, 2, 3, 5, 10, 25, 60, 150, 400}", sweep_points=10 ** 6,
-                     sweep_fn=10 ** 6, sweep_variants=("cold", "warm"), free_rounds=40, bfs_workers=12,
+                     sim_per_inst=16, bursts="{1, 2, 3, 5, 10, 25, 60, 150, 400}", sweep=dict(cold=(10 ** 6, 400), warm=(200, 0)), free_rounds=40, bfs_workers=12,
                      judged_sample=4000),
 }
 NPROC = min(common.NPROC, 16)
@@ -222,6 +220,50 @@ def lift_sched(enc, sched):
     return out
 
 
+def anchor_schedule(paths, schedule):
+    """A gate schedule in a form that survives a different validator order (the order in which an
+    element's validators run differs from process to process): every switch point is named by the
+    last access the thread performed there -- (op, location, n-th such access)."""
+    pos, out = {}, []
+    for item in schedule:
+        if item[0] == "F":
+            out.append(["F", item[1]])
+            continue
+        t, n = item
+        pos[t] = min(pos.get(t, 0) + n, len(paths[t - 1]))
+        if pos[t] == 0:
+            out.append([t, None])
+            continue
+        e = paths[t - 1][pos[t] - 1]
+        occ = sum(1 for x in paths[t - 1][:pos[t]] if x[0] == e[0] and x[1] == e[1])
+        out.append([t, [e[0], e[1], occ]])
+    return out
+
+
+def unanchor_schedule(paths, anchored):
+    pos, out = {}, []
+    for item in anchored:
+        if item[0] == "F":
+            out.append(("F", item[1]))
+            continue
+        t, a = item
+        if a is None:
+            continue
+        occ, idx = 0, None
+        for i, x in enumerate(paths[t - 1]):
+            if x[0] == a[0] and x[1] == a[1]:
+                occ += 1
+                if occ == a[2]:
+                    idx = i + 1
+                    break
+        if idx is None:
+            return None
+        if idx > pos.get(t, 0):
+            out.append((t, idx - pos.get(t, 0)))
+            pos[t] = idx
+    return out
+
+
 # ---------------------------------------------------------------------- part (i) conformance
 def bind_conformance(bind_progs, inst, enc, prop_labels):
     """abstract CallProg of each thread against the recorded program projected on the binding
@@ -299,6 +341,23 @@ def _run(pid, tier, cf, rep, tf, rng, timing, instances, pool, replay_file, t0):
                          seq_hashes=sorted({tf.tree_hash(t) for t in r["seq_trees"]}),
                          paths=[[e[:3] for e in lg if e[0] in "rw"] for lg in r["progs"]]))
     key_of = {(r["case"], r["group"], r["variant"]): i for i, r in enumerate(recs)}
+    if replay_file:
+        payload = json.load(open(replay_file))
+        sch = unanchor_schedule(refs[0]["paths"], payload["schedule"]) if payload.get("schedule") else None
+        if sch is not None:
+            # re-execute just that case: the recorded schedule on a fresh tree, judged by R_C14
+            r = recs[0]
+            out = pool.map("replay_many", [(r["case"], r["group"], r["variant"],
+                                            [(("replayed",), sch, payload.get("tail"))], dict(paths=True), refs[0])])
+            observations = [(0, tag, summ) for tag, summ in out[0]]
+            j = _judge(observations, recs, refs, rep, tf, dict(cf, judged_sample=10), rng, timing)
+            return rep.finish(dict(states=j["adj"]["tlc_states"], transitions=j["adj"]["events"],
+                                   traces_validated_against_impl=len(observations), evaluations=len(observations),
+                                   distinct_nontrivial=len(observations), rule="replay of one recorded schedule",
+                                   samples=[dict(case=r["case"], schedule=payload["schedule"],
+                                                 got=[_short(g) for g in observations[0][2]["got"]])],
+                                   bounds=dict(replay=replay_file), drift=dict(j["drift"]), timing=timing),
+                              time.time() - t0, assumptions=["replay of one recorded schedule"])
 
     # ------------------------------------------------------------ TLC (three jobs, concurrently)
     # The sweeps and the free-running rounds do not depend on TLC: the pool works on them while
@@ -446,6 +505,90 @@ def _run(pid, tier, cf, rep, tf, rng, timing, instances, pool, replay_file, t0):
                            observations, replay_file)
 
     # ------------------------------------------------------------ adjudication by TLC
+    j = _judge(observations, recs, refs, rep, tf, cf, rng, timing)
+    drift, drift_by_case, events, adj = j["drift"], j["drift_by_case"], j["events"], j["adj"]
+    suspects, control, drifted, chosen = j["suspects"], j["control"], j["drifted"], j["chosen"]
+
+    # ------------------------------------------------------------ vacuity / coverage
+    n_writes = sum(sum(1 for e in p if e[0] == "w") for enc in encs for p in enc["prog"])
+    n_reads = sum(sum(1 for e in p if e[0] == "r") for enc in encs for p in enc["prog"])
+    kinds = Counter(tag[0] for _i, tag, _s in observations)
+    accepted = sum(1 for _i, _t, s in observations if any(k == "ok" for k, _r in s["got"]))
+    rejected_calls = sum(1 for _i, _t, s in observations if any(k == "reject" for k, _r in s["got"]))
+    if not replay_file:
+        # the positive control (a racy element defined by the harness) must be found by every
+        # channel: monitor -> TLC candidate -> gate replay -> R_C14, and the pre-emption sweep
+        if control["cand"] == 0 or control["sweep"] == 0:
+            raise MachineryError("self-test: the positive control was not rejected by every channel: %r"
+                                 % dict(control))
+        for k in ("sim", "sweep", "free"):
+            if kinds[k] == 0:
+                raise MachineryError("vacuity: no %s observation" % k)
+        if accepted == 0 or rejected_calls == 0:
+            raise MachineryError("vacuity: accepted and rejected calls must both occur")
+        if sum(len(primaries(p)) for r in recs for p in r["progs"]) < 100 * len(recs):
+            raise MachineryError("vacuity: the monitor recorded almost no access")
+        if adj["events"] == 0:
+            raise MachineryError("vacuity: nothing adjudicated")
+    mem0_conflicts = sum(e["conflicts"] for e in encs)
+    history_dep = sum(len(r["history_dep"]) for r in recs)
+    samples = []
+    for i in (0, len(recs) // 2, len(recs) - 1):
+        r = recs[i]
+        samples.append(dict(case=r["case"], group=list(r["group"]), variant=r["variant"],
+                            alone=[_short(a) for a in r["alone"]],
+                            program_events=[len(primaries(p)) for p in r["progs"]],
+                            projected_events=[len(p) for p in encs[i]["prog"]],
+                            written_locations=encs[i]["locs"][:8]))
+    for i, tag, s in observations[:2] + observations[-2:]:
+        samples.append(dict(case=recs[i]["case"], tag=_tagstr(tag), got=[_short(g) for g in s["got"]],
+                            tree_same=s["tree_same"], steps=s.get("steps")))
+    suspects_n = len(suspects)
+    coverage = dict(
+        states=bfs_stats["distinct"] + bind.distinct + sim_stats["states"] + adj["tlc_states"],
+        transitions=bfs_stats["states"] + bind.states + sim_stats["states"] + adj["events"],
+        traces_validated_against_impl=len(observations),
+        evaluations=len(observations),
+        distinct_nontrivial=sum(1 for _i, t, s in observations if s.get("steps") and min(s["steps"].values()) > 1)
+        + kinds["free"],
+        rule="one case = one run of 2-3 real threads on a fresh tree under one schedule (gate replay of a TLC "
+             "interleaving, pre-emption point, or free-running round); non-trivial = every thread passed more "
+             "than one gate point / free-running round",
+        samples=samples,
+        exhaustive=False,
+        bfs_exhaustive_within_bound=True,
+        bounds=dict(instances=len(recs), cases=sorted({r["case"] for r in recs}),
+                    threads=sorted({len(r["group"]) for r in recs}), variants=list(cf["variants"]),
+                    bursts=cf["bursts"], cap_per_worker=cf["cap"], sweep_points_per_direction_and_fn_entry_points=cf["sweep"],
+                    free_rounds=cf["free_rounds"]),
+        tlc=dict(bind=dict(states=bind.states, distinct=bind.distinct, candidates=len(bind_cands), wall=round(bind.wall, 2)),
+                 bfs=bfs_stats, sim=sim_stats, trace_validation=adj),
+        programs=dict(projected_writes=n_writes, projected_reads=n_reads,
+                      full_events=sum(len(primaries(p)) for r in recs for p in r["progs"]),
+                      mem0_conflicts=mem0_conflicts, history_dependent_sequential_outcomes=history_dep),
+        candidates=dict(exported=n_cand_total, replayed=cand_used),
+        observations=dict(kinds),
+        drift=dict(drift),
+        drift_by_case=dict(sorted(drift_by_case.items())),
+        drift_events_adjudicated=len([1 for oi in chosen if oi in set(drifted)]),
+        judged_events=len(events),
+        suspects_value_changing_write_logs=suspects_n,
+        positive_control_rejections=dict(control),
+        gate_stalls=sum(s.get("stalls", 0) for _i, _t, s in observations),
+        bind_protocol=bind_info,
+        timing=timing,
+    )
+    return rep.finish(coverage, time.time() - t0,
+                      assumptions=["A5 interleavings at the granularity of monitored accesses to pre-existing objects "
+                                   "(attributes and container contents of elements, model classes, properties, "
+                                   "UNBOUND_PROPERTY, format_checker, module-level containers of statham.*) under the GIL",
+                                   "A1 bounded: the listed trees/payloads, 2-3 threads, TLC exhaustive on projected programs",
+                                   "tree clause: a change that a sequential run of the same calls makes as well is C08's matter"])
+
+
+def _judge(observations, recs, refs, rep, tf, cf, rng, timing):
+    """Stage 4: observations that differ from the prediction (alone outcomes, unchanged tree), and
+    a seeded sample of those that do not, are adjudicated by TLC against R_C14."""
     t1 = time.time()
     events, ev_obs = [], {}
     drift = Counter()
@@ -513,82 +656,13 @@ def _run(pid, tier, cf, rep, tf, rng, timing, instances, pool, replay_file, t0):
                       % (r["case"], r["variant"], list(r["group"]), _tagstr(tag), " | ".join(what)),
                       dict(case=r["case"], group=list(r["group"]), variant=r["variant"], tag=list(map(str, tag)),
                            clause=clause, observed=dict(got=s["got"], tree1=s["tree1"], tree_diff=s.get("tree_diff")),
-                           alone=ref["alone"]))
+                           alone=ref["alone"],
+                           schedule=(anchor_schedule(ref["paths"], s["schedule"])
+                                     if s.get("schedule") is not None and tag[0] != "sweepfn" else None),
+                           tail=s.get("tail")))
 
-    # ------------------------------------------------------------ vacuity / coverage
-    n_writes = sum(sum(1 for e in p if e[0] == "w") for enc in encs for p in enc["prog"])
-    n_reads = sum(sum(1 for e in p if e[0] == "r") for enc in encs for p in enc["prog"])
-    kinds = Counter(tag[0] for _i, tag, _s in observations)
-    accepted = sum(1 for _i, _t, s in observations if any(k == "ok" for k, _r in s["got"]))
-    rejected_calls = sum(1 for _i, _t, s in observations if any(k == "reject" for k, _r in s["got"]))
-    if not replay_file:
-        # the positive control (a racy element defined by the harness) must be found by every
-        # channel: monitor -> TLC candidate -> gate replay -> R_C14, and the pre-emption sweep
-        if control["cand"] == 0 or control["sweep"] == 0:
-            raise MachineryError("self-test: the positive control was not rejected by every channel: %r"
-                                 % dict(control))
-        for k in ("sim", "sweep", "free"):
-            if kinds[k] == 0:
-                raise MachineryError("vacuity: no %s observation" % k)
-        if accepted == 0 or rejected_calls == 0:
-            raise MachineryError("vacuity: accepted and rejected calls must both occur")
-        if sum(len(primaries(p)) for r in recs for p in r["progs"]) < 100 * len(recs):
-            raise MachineryError("vacuity: the monitor recorded almost no access")
-        if adj["events"] == 0:
-            raise MachineryError("vacuity: nothing adjudicated")
-    mem0_conflicts = sum(e["conflicts"] for e in encs)
-    history_dep = sum(len(r["history_dep"]) for r in recs)
-    samples = []
-    for i in (0, len(recs) // 2, len(recs) - 1):
-        r = recs[i]
-        samples.append(dict(case=r["case"], group=list(r["group"]), variant=r["variant"],
-                            alone=[_short(a) for a in r["alone"]],
-                            program_events=[len(primaries(p)) for p in r["progs"]],
-                            projected_events=[len(p) for p in encs[i]["prog"]],
-                            written_locations=encs[i]["locs"][:8]))
-    for i, tag, s in observations[:2] + observations[-2:]:
-        samples.append(dict(case=recs[i]["case"], tag=_tagstr(tag), got=[_short(g) for g in s["got"]],
-                            tree_same=s["tree_same"], steps=s.get("steps")))
-    suspects_n = len(suspects)
-    coverage = dict(
-        states=bfs_stats["distinct"] + bind.distinct + sim_stats["states"] + adj["tlc_states"],
-        transitions=bfs_stats["states"] + bind.states + sim_stats["states"] + adj["events"],
-        traces_validated_against_impl=len(observations),
-        evaluations=len(observations),
-        distinct_nontrivial=sum(1 for _i, t, s in observations if s.get("steps") and min(s["steps"].values()) > 1)
-        + kinds["free"],
-        rule="one case = one run of 2-3 real threads on a fresh tree under one schedule (gate replay of a TLC "
-             "interleaving, pre-emption point, or free-running round); non-trivial = every thread passed more "
-             "than one gate point / free-running round",
-        samples=samples,
-        exhaustive=False,
-        bfs_exhaustive_within_bound=True,
-        bounds=dict(instances=len(recs), cases=sorted({r["case"] for r in recs}),
-                    threads=sorted({len(r["group"]) for r in recs}), variants=list(cf["variants"]),
-                    bursts=cf["bursts"], cap_per_worker=cf["cap"], sweep_points_per_direction=cf["sweep_points"],
-                    free_rounds=cf["free_rounds"]),
-        tlc=dict(bind=dict(states=bind.states, distinct=bind.distinct, candidates=len(bind_cands), wall=round(bind.wall, 2)),
-                 bfs=bfs_stats, sim=sim_stats, trace_validation=adj),
-        programs=dict(projected_writes=n_writes, projected_reads=n_reads,
-                      full_events=sum(len(primaries(p)) for r in recs for p in r["progs"]),
-                      mem0_conflicts=mem0_conflicts, history_dependent_sequential_outcomes=history_dep),
-        candidates=dict(exported=n_cand_total, replayed=cand_used),
-        observations=dict(kinds),
-        drift=dict(drift),
-        drift_by_case=dict(sorted(drift_by_case.items())),
-        drift_events_adjudicated=len([1 for oi in chosen if oi in set(drifted)]),
-        judged_events=len(events),
-        suspects_value_changing_write_logs=suspects_n,
-        positive_control_rejections=dict(control),
-        bind_protocol=bind_info,
-        timing=timing,
-    )
-    return rep.finish(coverage, time.time() - t0,
-                      assumptions=["A5 interleavings at the granularity of monitored accesses to pre-existing objects "
-                                   "(attributes and container contents of elements, model classes, properties, "
-                                   "UNBOUND_PROPERTY, format_checker, module-level containers of statham.*) under the GIL",
-                                   "A1 bounded: the listed trees/payloads, 2-3 threads, TLC exhaustive on projected programs",
-                                   "tree clause: a change that a sequential run of the same calls makes as well is C08's matter"])
+    return dict(drift=drift, drift_by_case=drift_by_case, events=events, adj=adj, suspects=suspects,
+                control=control, drifted=drifted, chosen=chosen)
 
 
 def _sweep_tasks(recs, refs, cf, rng):
@@ -597,31 +671,32 @@ def _sweep_tasks(recs, refs, cf, rng):
     a complete call there; a fresh tree per pre-emption point."""
     tasks, meta, sweep_n = [], [], 0
     for i, r in enumerate(recs):
-        if r["variant"] not in cf["sweep_variants"]:
+        if r["variant"] not in cf["sweep"]:
             continue
+        sweep_points, sweep_fn = cf["sweep"][r["variant"]]
         n = len(r["group"])
         for a in range(1, n + 1):
             b = a % n + 1
             others = [t for t in range(1, n + 1) if t not in (a, b)]
             total = sum(1 for e in primaries(r["progs"][a - 1]) if e[0] != "W")
             pts = list(range(0, total + 1))
-            if len(pts) > cf["sweep_points"]:
-                step = len(pts) / float(cf["sweep_points"])
+            if len(pts) > sweep_points:
+                step = len(pts) / float(sweep_points)
                 off = rng.random() * step
-                pts = sorted({min(total, int(off + j * step)) for j in range(cf["sweep_points"])})
+                pts = sorted({min(total, int(off + j * step)) for j in range(sweep_points)})
             chunk = [(("sweep", a, k), ([(a, k)] if k else []) + [("F", b)], [a] + others) for k in pts]
             for c0 in range(0, len(chunk), 24):
                 tasks.append((r["case"], r["group"], r["variant"], chunk[c0:c0 + 24], dict(paths=False), refs[i]))
                 meta.append(i)
             sweep_n += len(chunk)
-            if cf["sweep_fn"]:
+            if sweep_fn:
                 hi = int(2.5 * total) + 2      # accesses + function entries (an over-estimate is harmless)
-                if cf["sweep_fn"] >= hi:
+                if sweep_fn >= hi:
                     ks = list(range(0, hi))
                 else:
-                    step = hi / float(cf["sweep_fn"])
+                    step = hi / float(sweep_fn)
                     off = rng.random() * step
-                    ks = sorted({int(off + j * step) for j in range(cf["sweep_fn"])})
+                    ks = sorted({int(off + j * step) for j in range(sweep_fn)})
                 chunk = [(("sweepfn", a, k), ([(a, k)] if k else []) + [("F", b)], [a] + others) for k in ks]
                 for c0 in range(0, len(chunk), 24):
                     tasks.append((r["case"], r["group"], r["variant"], chunk[c0:c0 + 24],
@@ -722,6 +797,8 @@ def _tagstr(tag):
         return "interleaving of the abstract bind protocol exported by TLC (%s, thread %s)" % (tag[1], tag[2])
     if tag[0] == "sim":
         return "sampled TLC schedule"
+    if tag[0] == "replayed":
+        return "recorded schedule replayed"
     if tag[0] == "free":
         return "free-running threads, round %s" % tag[1]
     return str(tag)
